@@ -252,7 +252,10 @@ def exception_filter_contract():
         flt = holder.method_filter
     use = pick('use', ['context-raises', 'context-quiet', 'call-active',
                        'call-other-active', 'call-none-active'])
-    exc = make_original(pick('exception_kind', ['plain', 'needs-args']))
+    # (also exceptions that derive from BaseException only, like
+    # GreenletExit / CancelledError: the predicate decides for them too)
+    exc = make_original(pick('exception_kind', ['plain', 'needs-args',
+                                                'base-exception']))
     outcome = None
     if use == 'context-raises':
         try:
@@ -274,7 +277,7 @@ def exception_filter_contract():
             if use == 'call-active':
                 try:
                     raise exc
-                except Exception as caught:
+                except BaseException as caught:
                     flt(caught)
             elif use == 'call-other-active':
                 try:
